@@ -359,6 +359,9 @@ def _run_hypothesis(mod: Any, tier: str, seed: int, shard: int, acc: _Acc,
 
 def _write_replay(prop_id: str, signature: str, info: dict[str, Any]) -> str:
     rdir = os.path.join(ROOT, 'replays', prop_id, 'found')
+    if os.environ.get('VERIF_SCRATCH_OUT'):   # runs against a mutant
+        rdir = os.path.join(os.environ['VERIF_SCRATCH_OUT'], 'found',
+                            prop_id)
     os.makedirs(rdir, exist_ok=True)
     h = hashlib.sha1(signature.encode()).hexdigest()[:12]
     path = os.path.join(rdir, f'{h}.json')
@@ -530,8 +533,13 @@ def run_property(mod_name: str, tier: str, seed: int,
         'violations': len(total.violations),
     }
     _validate_evidence(ev)
-    os.makedirs(os.path.join(ROOT, 'evidence'), exist_ok=True)
-    with open(os.path.join(ROOT, 'evidence', f'{prop_id}.json'), 'w') as f:
+    evdir = os.path.join(ROOT, 'evidence')
+    if os.environ.get('VERIF_SCRATCH_OUT'):
+        # a run against a mutant (tools/run_seeded.py) must not overwrite the
+        # evidence of the real tree
+        evdir = os.path.join(os.environ['VERIF_SCRATCH_OUT'], 'evidence')
+    os.makedirs(evdir, exist_ok=True)
+    with open(os.path.join(evdir, f'{prop_id}.json'), 'w') as f:
         json.dump(ev, f, indent=1, sort_keys=True, default=repr)
         f.write('\n')
     print(f'{prop_id} {tier}: evaluations={total.evaluations} '
